@@ -7,6 +7,8 @@ CONSTANTS
   Names = {"x"}
   Keys <- MCKeys
   ValChoice <- MCVal
+  OpenCands <- Locs
+  MergeCands <- AllPairs
   MaxDepth = 2
   Record = TRUE
   Fat = FALSE
